@@ -24,6 +24,7 @@ F = "py/formak/reference_models/strapdown_imu.py"
 class Terms:
     def __init__(self, mod: ast.Module):
         self.defs = {}
+        self.updates = {}
         for s in mod.body:
             if isinstance(s, ast.Assign) and len(s.targets) == 1:
                 t = s.targets[0]
@@ -32,6 +33,12 @@ class Terms:
                 elif isinstance(t, ast.Tuple) and all(isinstance(e, ast.Name) for e in t.elts):
                     for i, e in enumerate(t.elts):
                         self.defs[e.id] = ("unpack", s.value, i)
+                elif isinstance(t, ast.Subscript) and isinstance(t.value, ast.Name):
+                    self.updates.setdefault(t.value.id, []).append(("item", t.slice, s.value))
+            elif isinstance(s, ast.Expr) and isinstance(s.value, ast.Call) and isinstance(s.value.func, ast.Attribute) and s.value.func.attr == "update" \
+                    and isinstance(s.value.func.value, ast.Name) and len(s.value.args) == 1 and not s.value.keywords:
+                # a module-level mapping filled in steps: `state_model.update(zip(keys, values))`
+                self.updates.setdefault(s.value.func.value.id, []).append(("update", s.value.args[0], None))
         self.cache = {}
 
     def name(self, n):
@@ -45,8 +52,51 @@ class Terms:
             v = lst[1][d[2]] if isinstance(lst, tuple) and lst[0] == "list" and d[2] < len(lst[1]) else ("unknown", n)
         else:
             v = self.ev(d)
+        for kind, a, b in self.updates.get(n, []):
+            if not (isinstance(v, tuple) and v and v[0] == "dict"):
+                v = ("unknown", n)
+                break
+            entries = list(v[1])
+            if kind == "item":
+                new = [(self.ev(a), self.ev(b))]
+            else:
+                u = self.ev(a)
+                if isinstance(u, tuple) and u[0] == "dict":
+                    new = list(u[1])
+                elif isinstance(u, tuple) and u[0] == "list" and all(isinstance(x, tuple) and x[0] == "list" and len(x[1]) == 2 for x in u[1]):
+                    new = [(x[1][0], x[1][1]) for x in u[1]]
+                else:
+                    v = ("unknown", n)
+                    break
+            for k_, val_ in new:
+                hit = [i for i, (k0, _) in enumerate(entries) if k0 == k_]
+                if hit:
+                    entries[hit[0]] = (k_, val_)          # a later entry for the same key replaces the value, the position stays
+                else:
+                    entries.append((k_, val_))
+            v = ("dict", tuple(entries))
         self.cache[n] = v
         return v
+
+    def shape_of(self, t):
+        """(rows, cols) of a matrix-valued term when it follows from its construction, else None"""
+        if not isinstance(t, tuple) or not t:
+            return None
+        if t[0] == "vec":
+            return (len(t[1]), 1)
+        if t[0] == "R":
+            return (3, 3)
+        if t[0] == "mmul":
+            a, b = self.shape_of(t[1]), self.shape_of(t[2])
+            return (a[0], b[1]) if a and b else None
+        if t[0] == "scale":
+            return self.shape_of(t[2])
+        if t[0] == "neg":
+            return self.shape_of(t[1])
+        if t[0] == "add":
+            shapes = {self.shape_of(x) for x in t[1]}
+            return next(iter(shapes)) if len(shapes) == 1 and None not in shapes else None
+        return None
 
     def items_of(self, t):
         """elements of an iterable term, in order; None when unknown"""
@@ -56,6 +106,10 @@ class Terms:
             return [("const", i) for i in range(t[1])]
         if t[0] == "list":
             return list(t[1])
+        sh = self.shape_of(t)
+        if sh is not None and sh[1] == 1:
+            # iterating a column matrix yields its entries from the top
+            return [("elem", t, (i, 0)) for i in range(sh[0])]
         return None
 
     def bind(self, target, value, loc):
